@@ -74,20 +74,21 @@ class Rel:
             self.st['cells'].add((name, int(dd)))
         self.st['compared'][name] = self.st['compared'].get(name, 0) + int(comp.sum())
         idx = np.nonzero(bad & comp)[0]
-        seen = {}
-        for k in idx:
-            dd = int(d[k])
-            if seen.get(dd, 0) >= 2:
-                seen[dd] += 1
-                continue
-            seen[dd] = seen.get(dd, 0) + 1
-            suffix = (':' + dec_label(dd)) if dd != -999 else ''
-            self.ck.violation('c12:%s%s' % (name, suffix), what(k), witness(k))
-        for dd, n in seen.items():       # account for the witnesses that were not materialised
-            suffix = (':' + dec_label(dd)) if dd != -999 else ''
-            v = self.ck.viol.get('c12:%s%s' % (name, suffix))
-            if v and n > 2:
-                v['count'] += n - 2
+        if not len(idx):
+            return 0
+        dbad = d[idx]
+        decs = [int(x) for x in np.unique(dbad)]
+        everywhere = len(decs) > 1 and set(decs) == {int(x) for x in np.unique(d[comp])}
+        # a relation broken in every energy decade that was compared is one defect (one key); otherwise the decades
+        # in which it is broken are part of the key, so that e.g. a low-energy cancellation is told apart from a wrong formula
+        for dd in decs:
+            rows = idx[dbad == dd]
+            suffix = '' if (everywhere or dd == -999) else ':' + dec_label(dd)
+            key = 'c12:%s%s' % (name, suffix)
+            for k in rows[:2]:
+                self.ck.violation(key, what(k), witness(k))
+            if len(rows) > 2:
+                self.ck.viol[key]['count'] += len(rows) - 2
         return len(idx)
 
 
